@@ -23,10 +23,10 @@ CHECKS["C01"] = dict(
     text="Every domain text of the bounded grammar (in-fragment corpus, out-of-fragment table, declaration variants, 4 layouts) is parsed by the real parser; its vocabulary and, over every call and every state of the program's relevant universe, the meaning of what was parsed are compared with an independent reading of the same text. A small-scope exhaustive enumeration is the right level: each way a parser can drop, negate or re-arity a construct has a witness with <= 3 literals and <= 3 objects.",
     note=_REF, technique="bounded-exhaustive program x state x call enumeration; parse result vs independent reference reading of the source text")
 CHECKS["C02"] = dict(
-    text="Every precondition of the bounded grammar x every type-correct call x every state of the relevant universe x operand-iteration orders (deviation-bounded DFS over set orders), object-declaration orders and one Operator re-used over successive states is queried on the real Operator and compared with the reference truth value: full truth tables instead of spot facts.",
+    text="Every precondition of the bounded grammar x every type-correct call x every state of the relevant universe x operand-iteration orders (deviation-bounded DFS over set orders), object-declaration orders and one Operator re-used over successive states, and calls on constants asked with the empty object table of a problem that declares no object, is queried on the real Operator and compared with the reference truth value: full truth tables instead of spot facts.",
     note=_REF, technique="bounded-exhaustive formula x state x call enumeration + deviation-bounded exploration of set-iteration orders, reference-model oracle")
 CHECKS["C03"] = dict(
-    text="Every effect program of the bounded grammar x every applicable consistent (state, call) x effect-collection orders, object-declaration orders one Operator re-used over successive states (with refused applications in between) and over its own successors, and the skip_validation / allow_inapplicable_actions switches on applicable actions, is applied on the real Operator; the whole serialized successor (frame included) is compared with the reference successor, and every explored order must give that same state.",
+    text="Every effect program of the bounded grammar x every applicable consistent (state, call) x effect-collection orders, object-declaration orders one Operator re-used over successive states (with refused applications in between) and over its own successors, and the skip_validation / allow_inapplicable_actions switches on applicable actions, is applied on the real Operator; the whole serialized successor (frame included) is compared with the reference successor, and every explored order must give that same state; plus every sequence of 3-4 calls of a nine-schema domain whose schemas type the same facts by narrower and wider parameters, step by step against the reference.",
     note=_REF, technique="bounded-exhaustive program x state x call enumeration + deviation-bounded exploration of effect-set iteration orders, reference-model oracle")
 CHECKS["C08"] = dict(
     text="Every generated in-fragment program and every shipped domain file goes through export -> parse -> export -> parse under every explored iteration order of the exporter's sets; vocabulary, structure and the implementation's own behaviour table before and after are compared.",
@@ -38,7 +38,7 @@ CHECKS["C20"] = dict(
     text="Every program of the bounded corpus x every type-correct call is grounded by the real Operator (with and without the problem objects; re-read after the operator was applied) and the reported grounded literals / expressions / typed forms are compared with positional substitution computed from the source text.",
     note=_REF, technique="bounded-exhaustive program x call enumeration, substitution oracle computed from the source text")
 CHECKS["C04"] = dict(
-    text="All plans (every sequence of type-correct calls, applicable or not) up to the length bound over three mini-domains are executed through TrajectoryExporter.parse_plan (sequence, three plan-file layouts, allow switch) by direct Operator.apply chaining, and on ONE State object that is overwritten in place with every step's successor; every triplet, the chaining and the exported text are compared step by step with the reference transition function.",
+    text="All plans (every sequence of type-correct calls, applicable or not) up to the length bound over three mini-domains are executed through TrajectoryExporter.parse_plan (sequence, three plan-file layouts, allow switch) by direct Operator.apply chaining (fresh operators, and one operator object per distinct call with every earlier state re-read after every step), and on ONE State object that is overwritten in place with every step's successor; every triplet, the chaining and the exported text are compared step by step with the reference transition function.",
     note=_REF, technique="exhaustive enumeration of operation sequences (plans) up to a depth bound, reference-model step oracle")
 CHECKS["C05"] = dict(
     text="Every problem text of the bounded generator and every single-point corruption of the base problems is parsed by the real ProblemParser; valid ones must be reproduced exactly (and still read the same after the next problem was parsed over the same Domain object), corrupted ones rejected - a confusion matrix by corruption kind instead of a few examples.",
@@ -54,7 +54,7 @@ CHECKS["C09"] = dict(
     text="Every valid problem of the bounded generator and every shipped problem/domain pair goes through export -> parse; the re-parsed problem's public attributes and the exported text (read independently) are compared with the original.",
     note=_REF, technique="bounded-exhaustive round-trip enumeration, two independent observations")
 CHECKS["C10"] = dict(
-    text="Every trajectory produced by all plans up to the length bound (incl. repeated-argument fluents, zero-arity atoms, inapplicable steps), joint trajectories with nop entries, and the shipped trajectory files are serialized and parsed back with and without the problem's object table; actions, states and chaining are compared.",
+    text="Every trajectory produced by all plans up to the length bound (incl. repeated-argument fluents, zero-arity atoms, inapplicable steps), joint trajectories with nop entries, and the shipped trajectory files are serialized (export, and export_to_file, which must write the same text) and parsed back with and without the problem's object table; actions, states and chaining are compared; a family with long hyphenated names and states several hundred characters wide sweeps the column of every token.",
     note=_REF, technique="exhaustive enumeration of plan histories up to a depth bound, round-trip oracle")
 CHECKS["C14"] = dict(
     text="Every state of a small universe is built along several routes (parsers, copies, successors); == is compared with the reference identity on all ordered pairs x all route pairs, every object is serialized and re-read, every copy is mutated both ways; successors are re-read after the operator that produced them was applied again, the states at the step boundaries of a parsed trajectory are changed in place one at a time, and one TrajectoryParser is used again after a rejected state.",
